@@ -165,9 +165,16 @@ def pitch_instances(r):
     rf, ef = np.array(rf), np.array(ef)
     fac = r.choice([2.0, 0.5, 4.0, 2.0 ** (1 / 12), 2.0 ** (5 / 12), 2.0 ** (-7 / 12)])
     ntm = ("mel", t, rf, ef)
+    # the common factor applies to every frequency of the problem, so a
+    # non-default base_frequency (also above the pitch range) scales with it
+    base = r.choice([10.0, 10.0, 100.0, 300.0, 1000.0])
     out.append(pair("factor", "melody.evaluate", (t, rf, t.copy(), ef),
                     (t, rf * fac, t.copy(), ef * fac), {}, "frequency factor %r" % fac,
                     ntm + (fac,)))
+    out[-1]["calls"][0] = ("base", "melody.evaluate", (t, rf, t.copy(), ef),
+                           {"base_frequency": base})
+    out[-1]["calls"][1] = ("T", "melody.evaluate", (t, rf * fac, t.copy(), ef * fac),
+                           {"base_frequency": base})
     octv = r.choice([2.0, 0.5, 4.0])
     out.append(pair("octave", "melody.evaluate", (t, rf, t.copy(), ef),
                     (t, rf, t.copy(), ef * octv), {}, "estimate x %r" % octv,
